@@ -1514,14 +1514,14 @@ func (ex *Executor) builtin(st *State, f *Frame, name string, args []Val, dest s
 		case SliceV:
 			return smt.IntC(int64(x.Len))
 		case *smt.Term:
-			return smt.StrLen(x)
+			return ex.strLen(st, x)
 		case MapV:
 			if x.Obj != nil {
 				ex.logAccess(st, Ptr{Obj: x.Obj}, false)
 			}
 			return smt.IntC(int64(len(ex.mapData(st, x).Entries)))
 		case BytesV:
-			return smt.Ite(x.Nil, smt.IntC(0), smt.StrLen(x.S))
+			return smt.Ite(x.Nil, smt.IntC(0), ex.strLen(st, x.S))
 		case ChanV:
 			if x.Obj == nil {
 				return smt.IntC(0)
@@ -1706,4 +1706,14 @@ func (ex *Executor) zeroOrNil(t types.Type) Val {
 		return nil
 	}
 	return ex.zero(t)
+}
+
+// strLen returns len(x) and records the facts that tie the (uninterpreted) length to emptiness.
+func (ex *Executor) strLen(st *State, x *smt.Term) *smt.Term {
+	l := smt.StrLen(x)
+	if !l.IsConst() {
+		st.addPC(smt.Ge(l, smt.IntC(0)))
+		st.addPC(smt.Eq(smt.Eq(l, smt.IntC(0)), smt.Eq(x, smt.StrC(""))))
+	}
+	return l
 }
